@@ -368,6 +368,21 @@ def check_translated_lint(run: lib.Run, audit: dict, violations: list) -> None:
                    f"agree on {len(cases)} documents" if good and bad == 0 else (f"{bad} of {len(cases)} differ" if good else (p.stderr or p.stdout)[-500:]))
 
 
+def check_translated_schema(run: lib.Run, audit: dict) -> None:
+    """C17's clause "a document is accepted exactly when it conforms to the bundled schema" refers to dsl/policy.schema.json: the file as it
+    is written now is translated into Lean (plugin src_translation_schema) and the obligation Run/C06_schema.lean proves that what it
+    accepts satisfies the engine's well-formedness hypothesis; the READING of the schema (translator + keyword meanings) is compared with the
+    real jsonschema validator and validate_policy on every C06 run (`translated_schema_vs_jsonschema`), not here"""
+    ok, detail, _ = c06.schema_obligation(run, audit)
+    if not ok:
+        path = run.write_replay("obligation_schema", {
+            "what": "per-run obligation Rbacx/Run/C06_schema.lean no longer checks: the bundled schema as it is written now is not proved to "
+                    "guarantee docWF (the engine's well-formedness hypothesis, Rbacx.C06.c06_total); the validation comparisons of this run "
+                    "(bundled schema vs validate_policy on every delivery path) are the search for a failing input; C06 searches for a "
+                    "schema-accepted document on which the engine raises", "lean": detail[-1500:]})
+        run.extra.setdefault("translated_obligation_replay", path)
+
+
 def check_detect(run: lib.Run):
     cases = detect_cases()
     cmds = [{"cmd": "detect-format", "fmt": f, "content_type": c, "filename": n} for f, c, n in cases]
@@ -868,6 +883,7 @@ def check(run: lib.Run, audit: dict) -> int:
     check_translated_detect(run, audit, violations)
     check_translated_cli(run, audit, violations)
     check_translated_lint(run, audit, violations)
+    check_translated_schema(run, audit)
     check_detect(run)
     check_paths_and_tools(run, audit)
     if not run.spec_failures:
